@@ -81,7 +81,9 @@ def apply_reserve_resource_constraint(machine, constraint):
                 = resources_after_reservation(
                     machine.chip_resource_exceptions[location],
                     constraint)
-            if overallocated(machine[location]):
+            # NB: Exceptions may be listed for dead chips: nothing can be placed
+            # on those so they cannot be over-allocated.
+            if location in machine and overallocated(machine[location]):
                 raise InsufficientResourceError(
                     "Cannot meet {}".format(constraint))
     else:
